@@ -237,7 +237,7 @@ def check(ctx, case):
 
 def shard_main(ctx):
     from hypothesis import given
-    n = {"quick": 700, "thorough": 8000}[ctx.tier]
+    n = {"quick": 1500, "thorough": 16000}[ctx.tier]
 
     @given(cases())
     def test(case):
